@@ -125,9 +125,12 @@ class Parameters:
         if self.delay.delay_until is not None and self.delay.delay_until > now:
             return self.delay.delay_until
         if self.delay.defer_by is not None:
-            defer_by_times = (now - self.timestamp) // self.delay.defer_by + 1
+            # the period grid is anchored at the time this iteration was scheduled for (if any),
+            # so that consecutive iterations are always at least one full period apart
+            base = self.delay.next_execution_time or self.timestamp
+            defer_by_times = (now - base) // self.delay.defer_by + 1
             time_offset = self.delay.defer_by * defer_by_times
-            return self.timestamp + time_offset
+            return base + time_offset
         if self.delay.cron is not None:
             if not CRON_SUPPORT:
                 raise ImportError("Croniter is not installed.")  # pragma: no cover
